@@ -50,6 +50,12 @@ pub open spec fn items_from(b: Seq<u8>, c: Seq<Chrom>, key: int) -> Seq<u8>
 pub open spec fn fmt_chrom_tree_from(b: Seq<u8>, c: Seq<Chrom>) -> Seq<u8> {
     items_from(put_node_header(put_tree_header(b, c.len() as int, max_key(c)), c.len() as int), c, max_key(c))
 }
+/// any ordering of the table other than the exact `sort_by_key(|v| *v.1)` (which the precondition stands for):
+/// unknown result, so an edit of the sort key is judged by the layout obligations
+#[verifier::external_body]
+pub fn havoc_order(c: &mut Vec<Chrom>)
+    ensures final(c)@.len() == old(c)@.len(),
+{ unimplemented!() }
 /// ids strictly ascending (what `chroms.sort_by_key(|v| *v.1)` leaves, ids being distinct): ASSUMED of the input
 pub open spec fn sorted_by_id(c: Seq<Chrom>) -> bool {
     forall|a: int, b: int| 0 <= a < b < c.len() ==> (#[trigger] c[a]).1 < (#[trigger] c[b]).1
@@ -168,7 +174,9 @@ pub fn padded(name: &Vec<u8>, n: usize) -> (r: Vec<u8>)
 //@rule R3 min=8
 //@rule R8
 //@rule R12u64 min=0
-//@presub /let mut chroms: Vec<\(&String, &u32\)> = chrom_ids\.iter\(\)\.collect\(\);\s*chroms\.sort_by_key\(\|v\| \*v\.1\);/ => "" min=1 count=1
+//@presub /let mut chroms: Vec<\(&String, &u32\)> = chrom_ids\.iter\(\)\.collect\(\);/ => let mut chroms = chroms; min=1 count=1
+//@presub /chroms\.sort_by_key\(\|v\| \*v\.1\);/ => "" min=0 count=1
+//@presub /chroms\.sort\w*\([^;]*\);/ => havoc_order(&mut chroms); min=0
 //@presub /let max_bytes = chroms\s*\.iter\(\)\s*\.map\(\|a\| a\.0\.as_bytes\(\)\.len\(\) as u32\)\s*\.fold\(0, u32::max\);/ => let max_bytes = max_name_len(&chroms); min=1 count=1
 //@presub /let key_bytes = &mut vec!\[0u8; ([^\]]+)\];\s*let chrom_bytes = chrom\.as_bytes\(\);\s*key_bytes\[\.\.chrom_bytes\.len\(\)\]\.copy_from_slice\(chrom_bytes\);/ => let key_bytes = &padded(chrom, \1); min=1 count=1
 //@presub /let length = chrom_sizes\s*\.get\(&chrom\[\.\.\]\)\s*\.expect\(&format!\("Expected length for chrom: \{\}", chrom\)\);/ => let length = &chroms[i__1].2; min=1 count=1
